@@ -250,13 +250,35 @@ def run(R):
         R.saw(pe)
         mt = pe.calls(name='make_trailers_frame')
         R.check(len(mt) == 1 and mentions_call(pe.origin(mt[0][1]['args'][0]), name='into_trailers'), 'C16.R4', 'trailers->frame', site(pe), 'make_trailers_frame(frame.into_trailers())')
-        encs = pe.calls(pat='base64::Engine::encode')
-        for bb, t in encs:
-            g = pe.edge_guards(bb)
-            okg = any(is_call(strip_refs(tm), name='eq') and term_contains(tm, lambda x: x and x[0] == 'agg' and x[1].get('variant') == 'Base64') and (vals == ['else'] or 0 not in vals) for s, vals, tm in g) \
-                or any(tm[0] == 'discr' and field_names(tm[1])[-1:] == ['encoding'] and tm[2] and len(vals) == 1 and dict((a_, b_) for a_, b_ in tm[2]).get(vals[0]) == 'Base64' for s, vals, tm in g)
-            R.check(okg, 'C16.R4', 'base64-iff-asked', site(pe, bb), 'base64 encoding only when encoding == Base64')
-        R.floor('C16.R4', 'base64 encode sites in poll_encode', len(encs), 2)
+        # by feasible path: every data frame handed out (made from a data frame or from the trailers) is base64-encoded exactly when
+        # the negotiated encoding is Base64
+        seen4 = set()
+        for cons, path in mirlib.path_rows(pe, stop=set(writers_of(pe, 0))):
+            val = mirlib.simplify(pe.ret_on_path(path))
+            if not has_fn(val, 'data', 'Frame'):
+                continue
+            kind = 'trailers' if has_fn(val, 'make_trailers_frame') else ('data' if has_fn(val, 'copy_to_bytes') else '?')
+            b64 = term_contains(val, lambda x: is_call(x, name='encode') and 'base64' in x[1])
+            enc = None
+            for bb_, tm, vals in pe.path_tests(path):
+                c_ = strip_refs(tm)
+                if is_call(c_) and c_[3] in ('eq', 'ne') and term_contains(c_, lambda x: x and x[0] == 'agg' and x[1].get('variant') == 'Base64') and any(field_names(a_)[-1:] == ['encoding'] for a_ in c_[2]):
+                    tr = pe.edge_truth(bb_, vals)
+                    if tr is not None:
+                        enc = 'Base64' if (tr == (c_[3] == 'eq')) else 'None'
+                elif c_ and c_[0] == 'discr' and field_names(c_[1])[-1:] == ['encoding'] and len(c_) > 2 and c_[2]:
+                    names_ = dict((a_, b2_) for a_, b2_ in c_[2])
+                    if len(vals) == 1 and vals[0] in names_:
+                        enc = names_[vals[0]]
+                    elif vals == ['else']:
+                        arms_ = [v_ for v_, _ in pe.term(bb_)['arms']]
+                        rest_ = [n_ for d_, n_ in c_[2] if d_ not in arms_]
+                        enc = rest_[0] if len(rest_) == 1 else None
+            st = site(pe, path[-1])
+            R.check(kind in ('data', 'trailers'), 'C16.R4', 'frame-source', st, 'the data frame is made from the inner data frame or from make_trailers_frame(trailers): %s' % show(val)[:100])
+            R.check(enc is not None and b64 == (enc == 'Base64'), 'C16.R4', 'base64-iff-asked', st, '%s frame: base64-encoded %r with encoding %r' % (kind, b64, enc))
+            seen4.add((kind, enc))
+        R.eq(sorted(seen4), [('data', 'Base64'), ('data', 'None'), ('trailers', 'Base64'), ('trailers', 'None')], 'C16.R4', 'base64 rows', site(pe), 'frame kinds x encodings decided in poll_encode')
         # nothing after the inner body ends; trailers frames are data frames
         nn = 0
         for bb in writers_of(pe, 0):
